@@ -372,11 +372,15 @@ class _SocksMachine(object):
     @_machine.output()
     def _send_resolve_ptr_request(self):
         "sends RESOLVE_PTR request (Tor custom)"
-        addr_type = 0x04 if isinstance(self._addr, ipaddress.IPv4Address) else 0x01
-        encoded_host = inet_aton(self._addr.host)
+        if isinstance(self._addr, IPv6Address):
+            addr_type = 0x04
+            encoded_host = inet_pton(AF_INET6, self._addr.host)
+        else:
+            addr_type = 0x01
+            encoded_host = inet_aton(self._addr.host)
         self._data_to_send(
             struct.pack(
-                '!BBBB4sH',
+                '!BBBB{}sH'.format(len(encoded_host)),
                 5,                   # version
                 0xF1,                # command
                 0x00,                # reserved
